@@ -442,6 +442,31 @@ theorem closeEnding_safe (ks : List Nat) : ∀ (sl : List Slot), (∀ x ∈ sl, 
       · exact ih _ (set_inv sl h k { sl.getD k {} with ending := false } (by intro s hs; exact getD_inv sl h k s hs))
     · exact ih sl h
 
+theorem runExits_noBad (ex : List (Nat × Nat)) : ∀ sl : List Slot, noBad (runExits Cfg.fixed ex sl).2 := by
+  induction ex with
+  | nil => intro sl; exact noBad_nil
+  | cons e ex ih =>
+    intro sl
+    obtain ⟨k, g⟩ := e
+    unfold runExits
+    simp only
+    split
+    · exact noBad_append (exitSlot_spec k _).2 (ih _)
+    · simp only [Cfg.fixed, if_true]; exact ih sl
+
+theorem closeEnding_noBad (ks : List Nat) : ∀ sl : List Slot, noBad (closeEnding ks sl).2 := by
+  induction ks with
+  | nil => intro sl; exact noBad_nil
+  | cons k ks ih =>
+    intro sl
+    unfold closeEnding
+    simp only
+    split
+    · split
+      · exact noBad_cons rfl (noBad_cons rfl (ih _))
+      · exact ih _
+    · exact ih sl
+
 theorem doPass_safe (w : World) (h : WInv w) : WInv (doPass Cfg.fixed w).1 ∧ noBad (doPass Cfg.fixed w).2 := by
   have h1 := runExits_safe w.exits w.slots h
   have h2 := closeEnding_safe [4, 5, 6] _ h1.1
@@ -555,11 +580,16 @@ theorem step_safe (w : World) (op : Op) (h : WInv w) :
     have := doPass_safe w h
     exact ⟨this.1, noBad_append this.2 (noBad_opLine _)⟩
   | teardown =>
-    simp only [step] at hr; split at hr
-    · simp at hr
-    · cases hr
-      refine ⟨winv_replicate _, noBad_append ?_ (noBad_opLine _)⟩
-      simp [Cfg.fixed, noBad]
+    simp only [step] at hr; cases hr
+    refine ⟨winv_replicate _, noBad_append ?_ (noBad_opLine _)⟩
+    simp [Cfg.fixed, noBad]
+  | passdown =>
+    simp only [step] at hr; cases hr
+    have h1 := closeEnding_safe [4, 5, 6] w.slots h
+    have h2 := runExits_safe w.exits _ h1.1
+    refine ⟨winv_replicate _, ?_⟩
+    refine noBad_append (noBad_append (noBad_append h1.2 (noBad_filter _ h2.2)) ?_) (noBad_opLine _)
+    simp [Cfg.fixed, noBad]
   | opt n =>
     simp only [step] at hr; split at hr
     · split at hr
